@@ -623,3 +623,15 @@ func BigBatch(name string, n int, slow bool, bound int) *world.Scenario {
 	}
 	return sc
 }
+
+// ApplyConfigVariant: a third of all scenarios (chosen by a hash of the scenario name, so that replays agree) run with
+// log level "debug" (Debug lines formatted, Debug closures evaluated) and the slow-log enabled (threshold 1 ms): two
+// configuration switches that execute additional proxy code but must not change any observable behaviour.
+func ApplyConfigVariant(sc *world.Scenario) {
+	if hashStr(sc.Name)%3 == 1 {
+		sc.DebugLog = true
+		if sc.SlowlogMs == 0 {
+			sc.SlowlogMs = 1
+		}
+	}
+}
